@@ -1179,10 +1179,13 @@ div_signed_int(Type& to, const Type x, const Type y, Rounding_Dir dir) {
     return V_EQ;
   }
   Type m = x % y;
-  if (m < 0) {
+  // The truncated quotient is above the exact one iff the exact quotient is
+  // negative, i.e., iff the remainder (which has the sign of x) and y
+  // have different signs.
+  if (m != 0 && ((m < 0) != (y < 0))) {
     return round_lt_int_no_overflow<To_Policy>(to, dir);
   }
-  else if (m > 0) {
+  else if (m != 0) {
     return round_gt_int_no_overflow<To_Policy>(to, dir);
   }
   else {
